@@ -5,17 +5,19 @@ import EAO.Lemmas.CHPRows
 import EAO.Lemmas.CHPCommit
 import EAO.Lemmas.CHPFuel
 import EAO.Lemmas.CHPMinLoad
+import EAO.Lemmas.CHPProfile
 /-!
 # C06 — Plant / CHP unit commitment: runtime, downtime, ramps, starts, heat and fuel
 
 Theorems about `assembleCHP` (the generation part of the model `buildCHP` of
 `CHPAsset.setup_optim_problem` / `Plant`; `buildCHP p … = .ok a` with a non-empty window means
-`a = assembleCHP r` for the resolved inputs `r`).  PROFILE-FREE case: start/shutdown ramp profiles
-(`start_ramp_*`, `shutdown_ramp_*`, `_convert_ramp`) and hence shutdown variables are not in the model;
-every statement below is therefore the `_partial` version of the property for assets without such
-profiles.  TARGET (not modelled, not proved): the same statements with profiles, where during the
-start/shutdown ramp the profile bounds replace `[min_cap, max_cap]` and the ramp rows, and where the start
-rows are equalities (exact start flags).
+`a = assembleCHP r` for the resolved inputs `r`) — sections (1)–(5), the PROFILE-FREE case —, about the model
+`buildMinLoad` of `CHPAsset_with_min_load_costs` — section (6) — and about `assembleCHPP`, the model WITH start /
+shutdown ramp profiles (`start_ramp_*`, `shutdown_ramp_*`, `_convert_ramp`, shutdown variables) — section (7).
+What remains `_partial` (TARGET, modelled and covered by the correspondence but without theorem): with profiles,
+(1a) `commit_rows_iff_spec` (the admissible on/off patterns of the rows WITH shutdown variables and the increased
+minimum runtime), the reading of the HEAT profile rows (`heatProfRows`), the relaxed ramp rows when several flags
+are set at once, and statements about `convertRamp` (interpolation / averaging of a profile given in `ramp_freq`).
 
 Reading of the variables of an assignment `x : Vec`: power `x (L.power j)`, heat `x (L.heat j)`,
 on `x (L.on j)`, start `x (L.start j)` with `L = r.layout`; virtual dispatch `r.vd x j = power + conv_j·heat`.
@@ -342,6 +344,102 @@ example : addMinLoad CHPMinLoad.exA CHPMinLoad.exG [4, 4] [7, 7] = .ok CHPMinLoa
     CHPMinLoad.exP.FeasibleRelaxed (CHPMinLoad.pt [0, 6, 0, 1, 0, 0]) :=
   ⟨CHPMinLoad.ex_build, CHPMinLoad.ex_low_noflag_infeasible, CHPMinLoad.ex_low_flag_feasible,
    CHPMinLoad.ex_high_flag_feasible, CHPMinLoad.ex_off_noflag_feasible⟩
+
+/-! ## (7) start / shutdown ramp profiles (model `buildCHPP` / `assembleCHPP`, `EAO/Model/CHPProfile.lean`)
+
+`r : CHPRP` = the profile-free resolved inputs `r.core` (minimum runtime increased by `S + Q`, on/start variables
+present) and the profiles on the grid `r.prof` (`sl`, `su`: start lower / upper, `S` entries; `ql`, `qu`: shutdown,
+`Q` entries; after `_convert_ramp` = `convertRamp` and the factor step / unit).  Shutdown flag of step `j`:
+`x (r.shut j)`.  A capacity row of step `i` "sees" the start flags `start_{i−j}` (`j < S`, `j ≤ i`) and the shutdown
+flags `shut_{i+j+1}` (`j < Q`, `i+j+1 < T`).  Steps `i < r.firstCap = S − tar` of a unit already running are handled
+by `init_ramp_bounds`. -/
+
+/-- PRECEDENCE of the start profile: in the `k`-th step after a start (exactly that start flag set among those the
+    row sees, no shutdown flag, unit on) the virtual dispatch lies within the `k`-th start-profile bounds, whatever
+    `min_cap` / `max_cap` are -/
+theorem start_profile_bounds (r : CHPRP) (x : Vec) (hx : (assembleCHPP r).FeasibleRelaxed x) (hon : r.core.incOn = true)
+    (i : Nat) (hi : i < r.core.n) (hf : r.firstCap ≤ i) (k : Nat) (hk : k < r.prof.S) (hki : k ≤ i)
+    (hon1 : x (r.core.layout.on (r.core.stepOff i)) = 1) (hs : x (r.core.layout.start (i - k)) = 1)
+    (hs0 : ∀ j, j < r.prof.S → j ≤ i → j ≠ k → x (r.core.layout.start (i - j)) = 0)
+    (hq0 : ∀ j, j < r.prof.Q → i + j + 1 < r.core.T → x (r.shut (i + j + 1)) = 0) :
+    r.prof.sl.getD k 0 ≤ r.core.vd x i ∧ r.core.vd x i ≤ r.prof.su.getD k 0 :=
+  CHPProfile.start_profile_bounds r x hx hon i hi hf k hk hki hon1 hs hs0 hq0
+
+/-- PRECEDENCE of the shutdown profile: `k + 1` steps before a shutdown the virtual dispatch lies within the `k`-th
+    shutdown-profile bounds -/
+theorem shutdown_profile_bounds (r : CHPRP) (x : Vec) (hx : (assembleCHPP r).FeasibleRelaxed x) (hon : r.core.incOn = true)
+    (i : Nat) (hi : i < r.core.n) (hf : r.firstCap ≤ i) (k : Nat) (hk : k < r.prof.Q) (hkT : i + k + 1 < r.core.T)
+    (hon1 : x (r.core.layout.on (r.core.stepOff i)) = 1) (hq : x (r.shut (i + k + 1)) = 1)
+    (hq0 : ∀ j, j < r.prof.Q → i + j + 1 < r.core.T → j ≠ k → x (r.shut (i + j + 1)) = 0)
+    (hs0 : ∀ j, j < r.prof.S → j ≤ i → x (r.core.layout.start (i - j)) = 0) :
+    r.prof.ql.getD k 0 ≤ r.core.vd x i ∧ r.core.vd x i ≤ r.prof.qu.getD k 0 :=
+  CHPProfile.shutdown_profile_bounds r x hx hon i hi hf k hk hkT hon1 hq hq0 hs0
+
+/-- outside the ramps (no flag the row sees is set) capacity is as in the profile-free case: on ⇒ between min and max
+    capacity, off ⇒ 0 -/
+theorem capacity_outside_ramps (r : CHPRP) (x : Vec) (hx : (assembleCHPP r).FeasibleRelaxed x) (hon : r.core.incOn = true)
+    (i : Nat) (hi : i < r.core.n) (hf : r.firstCap ≤ i)
+    (hs0 : ∀ j, j < r.prof.S → j ≤ i → x (r.core.layout.start (i - j)) = 0)
+    (hq0 : ∀ j, j < r.prof.Q → i + j + 1 < r.core.T → x (r.shut (i + j + 1)) = 0) :
+    (x (r.core.layout.on (r.core.stepOff i)) = 1 → r.core.minCap i ≤ r.core.vd x i ∧ r.core.vd x i ≤ r.core.maxCap i) ∧
+    (x (r.core.layout.on (r.core.stepOff i)) = 0 → r.core.vd x i = 0) :=
+  CHPProfile.capacity_outside_ramps r x hx hon i hi hf hs0 hq0
+
+/-- a unit in its start ramp at the beginning of the horizon (`0 < tar < S`) follows the profile from position `tar` -/
+theorem init_ramp_bounds (r : CHPRP) (x : Vec) (hx : (assembleCHPP r).FeasibleRelaxed x)
+    (h1 : 0 < r.core.tar) (h2 : r.core.tar < r.prof.S) (i : Nat) (hi : i < r.prof.S - r.core.tar) :
+    r.prof.sl.getD (r.core.tar + i) 0 ≤ r.core.vd x i ∧ r.core.vd x i ≤ r.prof.su.getD (r.core.tar + i) 0 :=
+  CHPProfile.init_ramp_bounds r x hx h1 h2 i hi
+
+/-- with shutdown variables the flags are defined by EQUALITIES: `on_{t+1} − on_t = start_{t+1} − shut_{t+1}` -/
+theorem start_shut_flag (r : CHPRP) (x : Vec) (hx : (assembleCHPP r).FeasibleRelaxed x) (t : Nat) (ht : t + 1 < r.core.T) :
+    x (r.core.layout.on (t + 1)) - x (r.core.layout.on t) = x (r.core.layout.start (t + 1)) - x (r.shut (t + 1)) :=
+  CHPProfile.start_shut_flag r x hx t ht
+
+/-- … so that (0/1 values) a start is flagged EXACTLY at off→on transitions — for every step that has an exclusion row
+    `start + shut ≤ 1`, i.e. all but the last (see `last_step_flags_not_exclusive`) -/
+theorem start_exact (r : CHPRP) (x : Vec) (hx : (assembleCHPP r).FeasibleRelaxed x) (t : Nat) (ht : t + 2 < r.core.T)
+    (ho : x (r.core.layout.on t) = 0 ∨ x (r.core.layout.on t) = 1)
+    (ho' : x (r.core.layout.on (t + 1)) = 0 ∨ x (r.core.layout.on (t + 1)) = 1)
+    (hs : x (r.core.layout.start (t + 1)) = 0 ∨ x (r.core.layout.start (t + 1)) = 1)
+    (hq : x (r.shut (t + 1)) = 0 ∨ x (r.shut (t + 1)) = 1) :
+    x (r.core.layout.start (t + 1)) = 1 ↔ (x (r.core.layout.on t) = 0 ∧ x (r.core.layout.on (t + 1)) = 1) :=
+  CHPProfile.start_exact r x hx t ht ho ho' hs hq
+
+/-- … and a shutdown exactly at on→off transitions -/
+theorem shutdown_exact (r : CHPRP) (x : Vec) (hx : (assembleCHPP r).FeasibleRelaxed x) (t : Nat) (ht : t + 2 < r.core.T)
+    (ho : x (r.core.layout.on t) = 0 ∨ x (r.core.layout.on t) = 1)
+    (ho' : x (r.core.layout.on (t + 1)) = 0 ∨ x (r.core.layout.on (t + 1)) = 1)
+    (hs : x (r.core.layout.start (t + 1)) = 0 ∨ x (r.core.layout.start (t + 1)) = 1)
+    (hq : x (r.shut (t + 1)) = 0 ∨ x (r.shut (t + 1)) = 1) :
+    x (r.shut (t + 1)) = 1 ↔ (x (r.core.layout.on t) = 1 ∧ x (r.core.layout.on (t + 1)) = 0) :=
+  CHPProfile.shutdown_exact r x hx t ht ho ho' hs hq
+
+/-- witness (observation P-2 of notes/findings_chp.md): the exclusion rows stop one step early, so at the LAST step a
+    start and a shutdown may both be flagged while the unit stays on (and the step is then bounded by the start profile) -/
+theorem last_step_flags_not_exclusive :
+    ∃ x : Vec, (assembleCHPP CHPProfile.witnessLast).FeasibleRelaxed x ∧
+      x (CHPProfile.witnessLast.core.layout.on 0) = 1 ∧ x (CHPProfile.witnessLast.core.layout.on 1) = 1 ∧
+      x (CHPProfile.witnessLast.core.layout.start 1) = 1 ∧ x (CHPProfile.witnessLast.shut 1) = 1 ∧
+      CHPProfile.witnessLast.core.vd x 1 = 1 :=
+  CHPProfile.last_step_flags_not_exclusive
+
+/-- ramp rows outside the ramps (no start flag in the window of the upper row, no shutdown flag in the window of the
+    lower row): the profile-free reading `v_{t−1} − ramp·on_{t−1} ≤ v_t ≤ v_{t−1} + ramp·on_t` -/
+theorem ramp_steps_outside_ramps (r : CHPRP) (x : Vec) (hx : (assembleCHPP r).FeasibleRelaxed x) (ρ : Rat)
+    (hρ : r.core.ramp = some ρ) (t : Nat) (h1 : 1 ≤ t) (ht : t < r.core.T)
+    (hs0 : ∀ i, i < r.prof.S → i ≤ t → x (r.core.layout.start (t - i)) = 0)
+    (hq0 : ∀ i, i < r.prof.Q → t + i < r.core.T → x (r.shut (t + i)) = 0) :
+    r.core.vd x (t - 1) - (if r.core.incOn then ρ * x (r.core.layout.on (t - 1)) else ρ) ≤ r.core.vd x t ∧
+    r.core.vd x t ≤ r.core.vd x (t - 1) + (if r.core.incOn then ρ * x (r.core.layout.on t) else ρ) :=
+  ⟨CHPProfile.ramp_lower_outside r x hx ρ hρ t h1 ht hq0, CHPProfile.ramp_upper_outside r x hx ρ hρ t h1 ht hs0⟩
+
+/-- kernel-evaluated precedence: `Plant(min 3, max 10, start ramp [1/2, 1] … [1, 2])` started at step 0 with dispatch
+    `1, 2, 5` is feasible although `1, 2 < min_cap`; `3, 2, 5` is not (`3 > su_0 = 1`) -/
+theorem profile_precedence_witness :
+    (assembleCHPP CHPProfile.witnessProf).FeasibleRelaxed (fun j => [1, 2, 5, 1, 1, 1, 1, 0, 0, 0, 0, 0].getD j 0) ∧
+    ¬ (assembleCHPP CHPProfile.witnessProf).FeasibleRelaxed (fun j => [3, 2, 5, 1, 1, 1, 1, 0, 0, 0, 0, 0].getD j 0) :=
+  CHPProfile.profile_precedence_witness
 
 /-! ## link to `buildCHP` -/
 
